@@ -54,6 +54,9 @@ int __wrap_spki_table_search_by_ski(struct spki_table *t, uint8_t *ski, struct s
 }
 static EC_KEY *wrong_key;
 static uint8_t wrong_spki[SPKI_SIZE];
+static uint8_t garbage_spki[SPKI_SIZE];
+/* address families other than 1 and 2, incl. 16-bit values whose low octet is 1 or 2 */
+static const uint16_t bad_afi[] = {0, 3, 9, 25, 255, 256, 257, 258, 512, 513, 514, 0x8001, 0x8002, 0xff01, 0xff02, 0xffff};
 
 static EC_KEY *new_key(uint8_t *spki, uint8_t *priv, int *priv_len)
 {
@@ -171,6 +174,7 @@ int main(int argc, char **argv)
 
 	vh_seed(4242);
 	wrong_key = new_key(wrong_spki, NULL, NULL);
+	memset(garbage_spki, 0x5a, sizeof(garbage_spki));
 	while (getline(&lineb, &cap, f) > 0) {
 		struct vj *c = vj_parse(lineb);
 		const char *op = vj_str(c, "op", "val");
@@ -214,6 +218,12 @@ int main(int argc, char **argv)
 				} else if (!strcmp(v, "two")) {
 					add_key(&table, hops[i].asn, hops[i].ski, wrong_spki);
 					add_key(&table, hops[i].asn, hops[i].ski, hops[i].spki);
+				} else if (!strcmp(v, "garbagefirst")) {
+					/* an entry that cannot be loaded as a public key, registered before the verifying key */
+					add_key(&table, hops[i].asn, hops[i].ski, garbage_spki);
+					add_key(&table, hops[i].asn, hops[i].ski, hops[i].spki);
+				} else if (!strcmp(v, "garbage")) {
+					add_key(&table, hops[i].asn, hops[i].ski, garbage_spki);
 				} else if (!strcmp(v, "wrongkey")) {
 					add_key(&table, hops[i].asn, hops[i].ski, wrong_spki);
 				} else if (!strcmp(v, "otheras")) {
@@ -273,7 +283,7 @@ int main(int argc, char **argv)
 			if (!strcmp(argerr, "suite"))
 				b->alg = 2 + bit % 200;
 			if (!strcmp(argerr, "afi")) {
-				b->nlri->afi = 3 + bit % 100;
+				b->nlri->afi = bad_afi[bit % (sizeof(bad_afi) / sizeof(bad_afi[0]))];
 				b->afi = b->nlri->afi;
 			}
 			int rc = rtr_bgpsec_validate_as_path(b, &table);
@@ -290,6 +300,9 @@ int main(int argc, char **argv)
 			int errhop = vj_int(c, "errhop", 1);
 			struct rtr_bgpsec *b = NULL;
 			bool chain_ok = true;
+			static int bit0;
+
+			bit0 += 5; /* successive cases walk through the list of unsupported address families */
 
 			for (int i = n; i >= 1 && chain_ok; i--) {
 				uint32_t tgt = i == 1 ? target : hops[i - 1].asn;
@@ -313,8 +326,8 @@ int main(int argc, char **argv)
 				if (inject && !strcmp(err, "suite"))
 					b->alg = 7;
 				if (inject && !strcmp(err, "afi")) {
-					b->nlri->afi = 9;
-					b->afi = 9;
+					b->nlri->afi = bad_afi[(bit0 + i) % (sizeof(bad_afi) / sizeof(bad_afi[0]))];
+					b->afi = b->nlri->afi;
 				}
 				if (inject && !strcmp(err, "count"))
 					rtr_bgpsec_append_sec_path_seg(b, rtr_bgpsec_new_secure_path_seg(1, 0, 64512));
